@@ -601,7 +601,10 @@ func c05Run(r *fw.R, d c05Desc) {
 					// a one-shot Write that gives up while queued for the message lock changes nothing
 					err := c.Write(ictx, websocket.MessageBinary, payload)
 					ic()
-					if err != nil && !strings.Contains(err.Error(), "failed to acquire lock") {
+					// (only giving up in the queue for the MESSAGE lock is harmless: a compressed Write that
+					// gives up later, queued for the frame lock, keeps the message lock - the connection is then
+					// open but unwritable, and the application has to close it, as it does here)
+					if err != nil && !strings.HasPrefix(err.Error(), "failed to write msg: failed to acquire lock") {
 						time.Sleep(time.Duration(3+ir.Intn(10)) * time.Millisecond)
 						c.CloseNow()
 						return
